@@ -8,6 +8,7 @@ import (
 	"math/big"
 	"os"
 	"os/exec"
+	"strconv"
 	"strings"
 	"time"
 
@@ -310,6 +311,9 @@ func c10(r *eng.Run) {
 	// inputs whose hazards are not byte-level state: strings with two escapes at every distance,
 	// float literals on every conversion path (halfway points, thresholds, >800 digits)
 	extra := twoEscapeStrings()
+	for q := -360; q <= 360; q++ {
+		extra = append(extra, []byte("1e"+strconv.Itoa(q)), []byte("-9.5E"+strconv.Itoa(q)), []byte("[12345678901234567890e"+strconv.Itoa(q)+"]"))
+	}
 	for _, be := range []int{1, 52, 1000, 1023, 1024, 2046} {
 		for _, m := range []uint64{0, 1, 1<<52 - 1} {
 			bits := uint64(be)<<52 | m
